@@ -207,38 +207,3 @@ impl<'a, K, T> Entry<'a, K, VecDeque<T>> {
 }
 // @broadcast axiom_indexmap_unique
 
-// ---- IndexSet: insertion-ordered set ----
-#[verifier::external_body]
-#[verifier::reject_recursive_types(T)]
-pub struct IndexSet<T> { _p: core::marker::PhantomData<T> }
-impl<T> View for IndexSet<T> {
-    type V = Seq<T>;
-    uninterp spec fn view(&self) -> Seq<T>;
-}
-pub broadcast axiom fn axiom_indexset_unique<T>(s: IndexSet<T>)
-    ensures #[trigger] s@.no_duplicates();
-impl<T> IndexSet<T> {
-    #[verifier::external_body]
-    pub fn new() -> (s: IndexSet<T>) ensures s@ == Seq::<T>::empty() { unimplemented!() }
-    #[verifier::external_body]
-    pub fn len(&self) -> (n: usize) ensures n == self@.len() { unimplemented!() }
-    #[verifier::external_body]
-    pub fn is_empty(&self) -> (b: bool) ensures b == (self@.len() == 0) { unimplemented!() }
-    #[verifier::external_body]
-    pub fn contains(&self, x: &T) -> (b: bool) ensures b == self@.contains(*x) { unimplemented!() }
-    // insert: appended iff absent; returns whether it was newly inserted
-    #[verifier::external_body]
-    pub fn insert(&mut self, x: T) -> (b: bool)
-        ensures b == !old(self)@.contains(x), final(self)@ == (if old(self)@.contains(x) { old(self)@ } else { old(self)@.push(x) }),
-    { unimplemented!() }
-    #[verifier::external_body]
-    pub fn get_index(&self, i: usize) -> (r: Option<&T>)
-        ensures r == (if i < self@.len() { Some(&self@[i as int]) } else { None::<&T> }),
-    { unimplemented!() }
-}
-// `indexmap::IndexSet` / `indexmap::IndexMap` written with their crate path
-pub mod indexmap {
-    pub use super::IndexMap;
-    pub use super::IndexSet;
-}
-// @broadcast axiom_indexset_unique
